@@ -196,14 +196,67 @@ def _check_misc(fails):
   return n
 
 
+def _check_einsum_pool(fails):
+  """Einsum = the stated contraction plus a bias laid out along the RESULT's feature letters (Linen and NNX agree);
+  pooling with explicit (low, high) padding = the window reduction over an input padded with the reduction's identity"""
+  import jax
+  import jax.numpy as jnp
+  import flax.linen as nn
+  from flax import nnx
+  n = 0
+  rng = np.random.RandomState(5)
+  for eq, xshape, kshape in (('ab,bc->ac', (2, 3), (3, 4)), ('abc,cde->abde', (2, 3, 4), (4, 5, 6)), ('abc,cde->abed', (2, 3, 4), (4, 5, 6)), ('ab,bcd->adc', (2, 3), (3, 4, 5))):
+    n += 1
+    x = rng.randn(*xshape).astype(np.float32)
+    m = nn.Einsum(kshape, eq)
+    v = m.init(jax.random.key(0), jnp.asarray(x))
+    k = np.asarray(v['params']['kernel'])
+    out_letters = eq.split('->')[1]
+    feat = [c for c in out_letters if c in eq.split(',')[1].split('->')[0] and c not in eq.split(',')[0]]   # kernel-only letters, in result order
+    sizes = {c: s for c, s in zip(eq.split(',')[1].split('->')[0], kshape)}
+    bshape = tuple(sizes[c] for c in feat)
+    if tuple(np.asarray(v['params']['bias']).shape) != bshape:
+      fails.append(dict(inputs=dict(layer='linen.Einsum', equation=eq), observed=f"bias parameter has shape {np.asarray(v['params']['bias']).shape}; along the result's feature letters {feat} it is {bshape}", violated='einsum'))
+      return n
+    b = rng.randn(*bshape).astype(np.float32)
+    bcast = [sizes[c] if c in feat else 1 for c in out_letters]
+    want = np.einsum(eq, x, k) + b.reshape(bcast)
+    got = np.asarray(m.apply({'params': {'kernel': jnp.asarray(k), 'bias': jnp.asarray(b)}}, jnp.asarray(x)))
+    ne = nnx.Einsum(eq, kshape, bshape, rngs=nnx.Rngs(0))
+    ne.kernel.value, ne.bias.value = jnp.asarray(k), jnp.asarray(b)
+    got_nnx = np.asarray(ne(jnp.asarray(x)))
+    if got.shape != want.shape or np.abs(got - want).max() > 1e-4 or np.abs(got_nnx - want).max() > 1e-4:
+      fails.append(dict(inputs=dict(layer='Einsum (linen / nnx)', equation=eq), observed='differs from einsum(x, kernel) + bias broadcast along the result feature axes', violated='einsum'))
+      return n
+  img = rng.randn(2, 5, 6, 3).astype(np.float32) - 0.5      # values on both sides of zero
+  for name, fn, ident, red in (('max_pool', nn.max_pool, -np.inf, np.max), ('min_pool', __import__('flax.linen.pooling', fromlist=['min_pool']).min_pool, np.inf, np.min), ('avg_pool', nn.avg_pool, 0.0, None)):
+    for pads in (((1, 1), (0, 2)), ((0, 1), (2, 0))):
+      for strides in ((1, 1), (2, 1)):
+        n += 1
+        win = (2, 3)
+        got = np.asarray(fn(jnp.asarray(img), win, strides=strides, padding=pads))
+        p = np.pad(img, ((0, 0), pads[0], pads[1], (0, 0)), constant_values=ident)
+        oh = (p.shape[1] - win[0]) // strides[0] + 1
+        ow = (p.shape[2] - win[1]) // strides[1] + 1
+        want = np.zeros((img.shape[0], oh, ow, img.shape[3]), np.float32)
+        for i in range(oh):
+          for j in range(ow):
+            w_ = p[:, i * strides[0]:i * strides[0] + win[0], j * strides[1]:j * strides[1] + win[1], :]
+            want[:, i, j, :] = (w_.sum(axis=(1, 2)) / (win[0] * win[1])) if red is None else red(w_, axis=(1, 2))
+        if got.shape != want.shape or np.abs(got - want).max() > 1e-5:
+          fails.append(dict(inputs=dict(layer=name, window=list(win), strides=list(strides), padding=[list(q) for q in pads]), observed='differs from the window reduction over the input padded with the identity of the reduction', violated='pooling'))
+          return n
+  return n
+
+
 def run(tier, seed):
   fails = []
   cases = 0
-  for f in (_check_conv, _check_norms, _check_misc):
+  for f in (_check_conv, _check_norms, _check_misc, _check_einsum_pool):
     cases += f(fails)
     if fails:
       break
-  return dict(name=NAME, cases=cases, distinct=cases, bound='Conv1D: kernels 1-4 x dilation 1-2 x stride 1-2 x 6 padding modes; LayerNorm/BatchNorm x fast/two-pass variance x mask; Dense, Dropout, pooling, Embed (in-range, negative and out-of-range ids, linen and nnx)',
+  return dict(name=NAME, cases=cases, distinct=cases, bound='Conv1D: kernels 1-4 x dilation 1-2 x stride 1-2 x 6 padding modes; LayerNorm/BatchNorm x fast/two-pass variance x mask; Dense, Dropout, pooling, Embed (in-range, negative and out-of-range ids, linen and nnx); Einsum with bias (4 equations incl. permuted result letters, linen and nnx); max/min/avg pooling with explicit padding',
               failures=fails[:2], error=None)
 
 
